@@ -7,6 +7,38 @@ Step C  oracles on the implementation: (1) an HTML tokenizer's view of the seria
         (own transcription of the statement + html.parser) and reconstruction of an equal
         dependency; (2) extraction of interleaved serialised copies; (3) placeholder
         multiplicity; (4) json-mode str() + HTMLTextDocument == direct HTMLDocument rendering.
+
+PUBLIC ENTRY POINTS AND ARGUMENTS THAT REACH WHAT THE STATEMENT DESCRIBES (each is driven below, with
+non-default values, and judged by the statement's own oracles):
+  serialising   HTMLDependency.serialize_to_script_json(indent=None | int, keyword or positional), on a
+                dependency made by the constructor (head = None / str / str subclass / HTML / Tag / TagList /
+                list / tuple / nested / holding OTHER dependencies directly or inside tags), by head_content(),
+                by copy.copy / copy.deepcopy; while htmltools.html_dependency_render_mode is 'invisible' or
+                'json' (set only around the call, or also while the dependency is built); the element's
+                markup taken by get_html_string() / str() / repr() / render()['html']; serialising twice,
+                the caller changing the returned Tag in between (the dependency must not change).
+  json mode     htmltools.html_dependency_render_mode = 'json' with str() / repr() / _repr_html_() / format()
+                of a Tag or TagList (Tag.__str__, TagList.__str__, JSXTag.__str__ -> _render_tag_or_taglist);
+                trees that are a plain tag, a TagList, an <html> tag with its own <head> and <body>, a lone
+                <body>, a tag filled through a with-block (sys.displayhook route), a copy.copy /
+                copy.deepcopy of a tree, a JSX component inside ordinary tags, trees with objects that are
+                tagifiable and self-rendering, the same dependency object at several places, wide / deep trees;
+                str() called twice on the same tree.
+  extracting    HTMLTextDocument(html, deps=None | list, deps_replace_pattern=str) (keyword and positional) and
+                the static helper _static_extract_serialized_html_deps when it exists (else the public route
+                only); htmltools.HTMLTextDocument is the same class (top-level re-export).
+  rendering     HTMLTextDocument.render(lib_prefix='lib' | None | '' | nested, include_version=True | False),
+                called with defaults, several times on one document with different arguments, the caller
+                changing the returned dict / dependency objects in between; placeholders with regex
+                metacharacters, empty, overlapping, 0..300 occurrences, first occurrence beyond 70 000
+                characters; in 'invisible' and in 'json' mode.
+  reference     HTMLDocument(x, **attrs).render(lib_prefix=, include_version=) (lang / class_ / style keyword
+                attributes), x as above.
+SIZES: numbers of script / stylesheet / meta items, attributes of one item, head children, dependencies in a
+document / tree, serialised copies, placeholder occurrences, render() calls in a history: just below, at and
+above 8, 16, 32, 64, 128, 256, and 300; nesting depth of head tags / lists / tuples / TagLists / dependencies in
+heads and of the tree around a dependency up to 70; strings of 300, 5000, 70 001 (one of 300 017) characters
+with the hostile part at the 4 KiB / 64 KiB seams and in the tail; indent up to 300.
 """
 from __future__ import annotations
 
@@ -15,11 +47,13 @@ import itertools
 import json
 import os
 import re
+import sys
+import time
 from html.parser import HTMLParser
 
 from packaging.version import Version
 
-from ..common import Ctx, S, unS, run_model, known_matcher, canon, VERIF
+from ..common import Ctx, S, unS, run_model, known_matcher, canon, VERIF, ImplTimeout, time_limit
 from .. import trees
 
 
@@ -29,7 +63,11 @@ def safe_call(f, *a, **kw):
     has no error results of its own; where the harness decodes model output with json.loads and
     the HTMLDependency constructor, the same mapping is applied on both sides.)"""
     try:
-        return ("ok", f(*a, **kw))
+        with time_limit():
+            return ("ok", f(*a, **kw))
+    except ImplTimeout:
+        htmltools.html_dependency_render_mode = "invisible"
+        return ("exc", "did-not-terminate")
     except Exception as e:  # noqa: BLE001
         return ("exc", type(e).__name__)
 
@@ -55,6 +93,11 @@ def flush_exc(ctx) -> None:
 
 import htmltools
 from htmltools import HTML, HTMLDependency, HTMLDocument, HTMLTextDocument, Tag, TagList
+
+try:                                   # JSX components are not re-exported at the top level
+    from htmltools._jsx import jsx_tag_create
+except Exception:  # noqa: BLE001     (a tree without the experimental module: that kind of tree is left out)
+    jsx_tag_create = None
 
 # What the statement calls the serialised element: fixed here, independently of /repo and of
 # the regenerated tables (both are compared with it below).
@@ -138,7 +181,10 @@ def ws_text(rng) -> str:
     return hostile(rng, 2)
 
 
-def rand_head_kids(rng) -> list:
+def rand_head_kids(rng, nest: int = 0, renderable: bool = False) -> list:
+    """children of a head.  nest > 0: some of them are OTHER dependencies -- directly (as head_content(tag,
+    dep) is called), as the child of a tag in the head (a <link> that carries its dependency, as include_css
+    style helpers produce) -- which may have such heads themselves (nest - 1 more levels)"""
     kids = []
     for _ in range(rng.choice([0, 1, 1, 2, 2, 3])):
         r = rng.random()
@@ -146,17 +192,30 @@ def rand_head_kids(rng) -> list:
             kids.append(trees.rand_tree(rng, rng.choice([0, 1]), leaves="TH", names="bisv"))
         else:
             kids.append((rng.choice("TTHHR"), ws_text(rng)))
+    if nest > 0:
+        for _ in range(rng.choice([1, 1, 2])):
+            inner = ("D", rand_dep(rng, renderable=renderable, name=INNER + rng.choice(TAME), nest=nest - 1))
+            if rng.random() < 0.5:
+                inner = ("W", rng.choice(["link", "div", "script", "span", "style"]), rng.random() < 0.5,
+                         [("T", "x")][:rng.randrange(2)] + [inner] + [("H", ws_text(rng))][:rng.randrange(2)])
+            kids.insert(rng.randrange(len(kids) + 1), inner)
     return kids
+
+
+# names of dependencies that occur only inside other dependencies' heads
+INNER = "zz-inner-"
 
 
 HEAD_WRAPS = ["taglist", "pylist", "tuple", "nested", "single"]
 
 
-def rand_head(rng):
+def rand_head(rng, nest: int = 0, renderable: bool = False):
     """a head in one of the forms the constructor accepts: nothing, a plain str (or str subclass)
     taken as markup, HTML(), a self-rendering object, a Tag, a TagList / list / tuple / nested TagList
-    of text, HTML() and Tag children"""
+    of text, HTML() and Tag children -- and of other dependencies (nest levels)"""
     r = rng.random()
+    if nest > 0 and r < 0.14:
+        return ["kids", rng.choice(HEAD_WRAPS), rand_head_kids(rng, nest, renderable)]
     if r < 0.22:
         return None
     if r < 0.42:
@@ -202,9 +261,10 @@ def head_family():
     yield ["kids", "taglist", [("H", ""), ("H", "")]]
 
 
-def rand_dep(rng, *, renderable: bool = False, name: str | None = None) -> dict:
+def rand_dep(rng, *, renderable: bool = False, name: str | None = None, nest: int = 2) -> dict:
     """A dependency description (plain data).  renderable: as_html_tags() will be called on it
-    (source must resolve without touching odd filesystem paths)."""
+    (source must resolve without touching odd filesystem paths).  nest: how many levels of other
+    dependencies its head may hold."""
     h = (lambda n=3: hostile(rng, n))
     r = rng.random()
     if r < 0.3:
@@ -249,9 +309,13 @@ def rand_dep(rng, *, renderable: bool = False, name: str | None = None) -> dict:
     d = {"name": name if name is not None else (h() if rng.random() < 0.75 else rng.choice(TAME)),
          "version": rng.choice(VERSIONS), "source": source, "script": shape(scripts),
          "stylesheet": shape(sheets), "meta": shape(metas), "all_files": rng.random() < 0.3,
-         "head": rand_head(rng)}
+         "head": rand_head(rng, nest, renderable)}
     if rng.random() < 0.15:
         d["version_obj"] = True          # version given as a packaging Version, not a str
+    if name is None and rng.random() < 0.05:
+        # made by head_content(*children): the name is derived from the head's markup
+        h = d["head"]
+        return {"head_content": h[2] if h and h[0] == "kids" else rand_head_kids(rng, nest, renderable)}
     return d
 
 
@@ -280,6 +344,73 @@ def simple_dep(field: str, s: str) -> dict:
 
 SIMPLE_FIELDS = ["name", "src", "attr", "href", "meta", "source", "head", "headscript"]
 
+# ---- sizes ----------------------------------------------------------------------------------
+# just below, at and above the powers of two a size-dependent path is likely to switch at, and 300
+SIZES = [7, 8, 9, 15, 16, 17, 31, 32, 33, 63, 64, 65, 127, 128, 129, 255, 256, 257, 300]
+DEPTHS = [7, 8, 9, 15, 16, 17, 31, 32, 33, 63, 64, 65, 70]
+DEP_DEPTHS = [2, 3, 7, 8, 9, 16, 17]      # dependency in the head of a dependency in the head of ...
+STRLENS = [300, 5000, 70001]
+BIG_INDENTS = [9, 16, 17, 33, 64, 65, 128, 300]
+HOT = CLOSERS[:12] + ["<!--", "\\", '"', "\U0001F600", OPEN_TAG, "\r\n", "</SCRIPT>\\"]
+
+
+def long_string(rng, n: int, hot: str | None = None) -> str:
+    """n characters; what matters sits BEYOND every likely block size: across the 256 / 4 KiB / 64 KiB
+    seams and at the very end"""
+    unit = rng.choice(["lorem ipsum ", "abc \u03b1\u03b2 ", "x", "line one\n", "0123456789abcdef"])
+    t = (unit * (n // len(unit) + 1))[:n]
+    hot = rng.choice(HOT) if hot is None else hot
+    for seam in (256, 4096, 65536):
+        a = seam - len(hot) // 2 - 1
+        if 0 < a and a + len(hot) < n - len(hot):
+            t = t[:a] + hot + t[a + len(hot):]
+    return t[:n - len(hot)] + hot
+
+
+def tiny_dep(name: str, **kw) -> dict:
+    d = simple_dep("name", name)
+    d.update(kw)
+    return d
+
+
+def chain(kind: str, depth: int, bottom: list) -> tuple:
+    """bottom wrapped depth times in tags ("W"), lists / tuples / TagLists ("L")"""
+    x = bottom
+    for i in range(depth):
+        if kind == "W":
+            x = [("W", ["div", "span", "section"][i % 3], i % 2 == 0, x)]
+        else:
+            x = [("L", kind if kind != "mixed" else ["list", "tuple", "taglist"][i % 3], x)]
+    return x
+
+
+def sized_deps(rng, sizes, depths, dep_depths, strlens):
+    """(what, dependency description): ONE countable thing of the dependency has the given size, and the
+    content that needs neutralising / exact recovery is in its LAST member (deepest level, tail)"""
+    hot = lambda: "x" + rng.choice(HOT) + "y"          # noqa: E731
+    for n in sizes:
+        yield f"{n} script items", tiny_dep("a", script=[{"src": f"s{i}.js"} for i in range(n - 1)] + [{"src": hot()}])
+        yield f"{n} stylesheet items", tiny_dep("a", stylesheet=[{"href": f"s{i}.css"} for i in range(n - 1)] + [{"href": hot(), "media": hot()}])
+        yield f"{n} meta items", tiny_dep("a", meta=[{"name": f"m{i}", "content": str(i)} for i in range(n - 1)] + [{"name": "last", "content": hot()}])
+        yield f"{n} attributes of one item", tiny_dep("a", script=[dict([("src", "a.js")] + [(f"data-a{i}", str(i)) for i in range(n - 2)] + [("data-last", hot())])])
+        yield f"{n} head children", tiny_dep("a", head=["kids", rng.choice(HEAD_WRAPS[:4]),
+                                                        [("H", f"<i>{i}</i>") for i in range(n - 1)] + [("G", "script", False, [], [("T", hot())])]])
+        yield f"{n} dependencies in the head", tiny_dep("a", head=["kids", "taglist", [("D", tiny_dep(f"{INNER}{i}", script=[{"src": "i.js"}])) for i in range(n - 1)] + [("H", hot())]])
+        yield f"{n} text pieces in one head element", tiny_dep("a", head=["tree", ("G", "style", False, [], [("T", f"p{i}{{}}") for i in range(n - 1)] + [("T", hot())])])
+    for n in depths:
+        bottom = [("G", "script", False, [], [("T", hot())]), ("D", tiny_dep(INNER + "deep", head=["html", hot()])), ("H", " " + hot())]
+        yield f"head tags nested {n} deep", tiny_dep("a", head=["kids", "taglist", chain("W", n, bottom)])
+        for kind in ("list", "tuple", "taglist", "mixed"):
+            yield f"head {kind}s nested {n} deep", tiny_dep("a", head=["kids", "pylist", chain(kind, n, bottom)])
+    for n in dep_depths:
+        d = tiny_dep(INNER + "0", head=["html", hot()])
+        for i in range(1, n):
+            d = tiny_dep(INNER + str(i), head=["kids", "taglist", [("H", f"<b>{i}</b>"), ("D", d) if i % 2 else ("W", "link", False, [("D", d)])]])
+        yield f"dependencies nested {n} deep in heads", tiny_dep("a", head=["kids", "taglist", [("D", d), ("H", hot())]])
+    for n in strlens:
+        for f in (SIMPLE_FIELDS if n < 20000 else ["head", "headscript", "meta", "name"]):
+            yield f"string of {n} characters in {f}", simple_dep(f, long_string(rng, n))
+
 
 def all_strings(x):
     if isinstance(x, str):
@@ -304,7 +435,7 @@ def build_head(h):
     if h[0] == "tree":
         return trees.build(tuplify(h[1]))
     if h[0] == "kids":
-        kids = [trees.build(tuplify(x)) for x in h[2]]
+        kids = [build_hk(x) for x in h[2]]
         if h[1] == "pylist":
             return kids
         if h[1] == "tuple":
@@ -315,6 +446,19 @@ def build_head(h):
             return kids[0]
         return TagList(*kids)
     return TagList(*[trees.build(tuplify(x)) for x in h[1]])
+
+
+def build_hk(x):
+    """a child of a head: ("D", dependency description), ("W", tag name, add_ws, children) -- a tag whose
+    children may be such nodes again --, ("L", "list" | "tuple" | "taglist", children), or a trees description"""
+    if x[0] == "D":
+        return build_dep(x[1])
+    if x[0] == "W":
+        return Tag(x[1], *[build_hk(k) for k in x[3]], _add_ws=bool(x[2]))
+    if x[0] == "L":
+        kids = [build_hk(k) for k in x[2]]
+        return kids if x[1] == "list" else tuple(kids) if x[1] == "tuple" else TagList(*kids)
+    return trees.build(tuplify(x))
 
 
 def tuplify(d):
@@ -330,6 +474,8 @@ def tuplify(d):
 
 
 def build_dep(d: dict) -> HTMLDependency:
+    if "head_content" in d:
+        return htmltools.head_content(*[build_hk(x) for x in d["head_content"]])
     version = Version(d["version"]) if d.get("version_obj") else d["version"]
     return HTMLDependency(d["name"], version, source=copy.deepcopy(d["source"]),
                           script=copy.deepcopy(d["script"]), stylesheet=copy.deepcopy(d["stylesheet"]),
@@ -424,14 +570,104 @@ def tokenize(s: str) -> list:
     return p.events
 
 
+class Mode:
+    """with Mode(on): the block runs with htmltools.html_dependency_render_mode == 'json' when on
+    (the default 'invisible' is restored afterwards, whatever happens inside)"""
+
+    def __init__(self, on):
+        self.on = bool(on)
+
+    def __enter__(self):
+        htmltools.html_dependency_render_mode = "json" if self.on else "invisible"
+
+    def __exit__(self, *a):
+        htmltools.html_dependency_render_mode = "invisible"
+
+
+W_CHANGED = "serialising a dependency changed the dependency (a read-only call modified its argument)"
+_NOTES: list = []
+SER_MODES = [None, None, None, "json", "json", "json-build"]
+SER_MARKUP = ["get_html_string", "get_html_string", "get_html_string", "str", "repr", "render", "taglist"]
+
+
+def ser_variant(rng, case: dict, mode="?") -> dict:
+    """the same dependency serialised another way: render mode (the default, 'json' around the call, 'json'
+    also while the dependency is built), indent positional, a copy of the dependency, another way of taking
+    the element's markup, serialising twice with the caller changing the first result in between"""
+    case["mode"] = rng.choice(SER_MODES) if mode == "?" else mode
+    if rng.random() < 0.25:
+        case["args"] = "pos"
+    if rng.random() < 0.3:
+        case["markup"] = rng.choice(SER_MARKUP)
+    if rng.random() < 0.15:
+        case["via"] = rng.choice(["copy", "deepcopy"])
+    if rng.random() < 0.12:
+        case["twice"] = True
+    return case
+
+
+def element_markup(tag, how):
+    if how == "str":
+        return str(tag)
+    if how == "repr":
+        return repr(tag)
+    if how == "render":
+        return tag.render()["html"]
+    if how == "taglist":
+        return TagList(tag).get_html_string()
+    return tag.get_html_string()
+
+
+def ser_dep(dep, case) -> str:
+    """dep serialised as the case says (mode, argument style, markup route)"""
+    with Mode(case.get("mode")):
+        if case.get("args") == "pos":
+            tag = dep.serialize_to_script_json(case["indent"])
+        elif case["indent"] is None:
+            tag = dep.serialize_to_script_json()
+        else:
+            tag = dep.serialize_to_script_json(indent=case["indent"])
+        return element_markup(tag, case.get("markup")), tag
+
+
+def ser_run(case) -> str:
+    """the serialised element of the case's dependency"""
+    with Mode(case.get("mode") == "json-build"):
+        dep = build_dep(case["dep"])
+    if case.get("via") == "copy":
+        dep = copy.copy(dep)
+    elif case.get("via") == "deepcopy":
+        dep = copy.deepcopy(dep)
+    if not case.get("twice"):
+        return ser_dep(dep, case)[0]
+    before = copy.deepcopy(dep_canon(dep))
+    first, tag = ser_dep(dep, case)
+    # the caller does what it likes with the result ...
+    tag.children.clear()
+    tag.attrs.clear()
+    tag.name = "changed"
+    mid = copy.deepcopy(dep_canon(dep))
+    second = ser_dep(dep, case)[0]
+    after = dep_canon(dep)
+    if not (before == mid == after):
+        _NOTES.append((W_CHANGED, case, {"impl_output": after if after != before else mid, "expected": before}))
+    # ... and the next serialisation is judged like the first
+    return second
+
+
 # ------------------------------------------------------------------------------------------
 # oracles
 # ------------------------------------------------------------------------------------------
 def oracle_element(case, out):
-    """case = {kind:'serialise', dep, indent}; out = safe_call result of get_html_string()."""
+    """case = {kind:'serialise', dep, indent [, mode, args, markup, via, twice]}; out = safe_call result of
+    ser_run(case)."""
     if out[0] != "ok":
         return (f"valid input raised {out[1]} (serialize_to_script_json().get_html_string())", None)
     e = out[1]
+    if not isinstance(e, str):
+        return (W_PARSER, f"the element's markup is a {type(e).__name__}, not a str")
+    # the original, built and read in the default mode: name, version, source, script, stylesheet, meta,
+    # all_files, and the head's markup
     want = dep_canon(build_dep(case["dep"]))
     if not (e.startswith(OPEN_TAG) and e.endswith(CLOSE_TAG) and len(e) >= len(OPEN_TAG) + len(CLOSE_TAG)):
         return (W_PARSER, "element is not OPEN_TAG + payload + </script>")
@@ -443,7 +679,7 @@ def oracle_element(case, out):
     if got != want:
         return (W_JSON, {"reconstructed": got, "original": want})
     # an equal dependency has the same serialised form (the same fields, serialised the same way)
-    again = safe_call(lambda: dep_from_payload(payload).serialize_to_script_json(indent=case["indent"]).get_html_string())
+    again = safe_call(lambda: ser_dep(dep_from_payload(payload), case)[0])
     if again != ("ok", e):
         return (W_AGAIN, {"first": e, "second": again})
     if spec_has_close_tag(payload):
@@ -482,9 +718,23 @@ def doc_expected(case):
     return doc, ("".join(case["texts"]), [dep_canon(build_dep(case["pool"][origin[s]])) for s in order])
 
 
-def run_extract(doc):
+def absent_placeholder(doc: str) -> str:
+    k = 0
+    while f"\x00no such placeholder {k}\x00" in doc:
+        k += 1
+    return f"\x00no such placeholder {k}\x00"
+
+
+def run_extract(doc, public: bool = False):
+    """(remaining text, recovered dependencies): by the static helper the statement's anchor names when the
+    class has it, else (or when asked) by the public route -- a document whose placeholder does not occur"""
     def f():
-        html, deps = HTMLTextDocument._static_extract_serialized_html_deps(doc)
+        st = getattr(HTMLTextDocument, "_static_extract_serialized_html_deps", None)
+        if st is not None and not public:
+            html, deps = st(doc)
+        else:
+            r = htmltools.HTMLTextDocument(doc, deps_replace_pattern=absent_placeholder(doc)).render()
+            html, deps = r["html"], r["dependencies"]
         return (html, [dep_canon(d) for d in deps])
     return safe_call(f)
 
@@ -496,15 +746,20 @@ def listing_and_tags_markup(deps, lib_prefix, include_version) -> str:
     return head_after_charset(html)
 
 
-HEAD_OPEN = '<!DOCTYPE html>\n<html>\n  <head>\n    <meta charset="utf-8"/>'
+HEAD_OPEN = re.compile(r'<!DOCTYPE html>\n<html( [^\n]*)?>\n  <head>\n    <meta charset="utf-8"/>')
 
 
-def head_after_charset(html: str) -> str:
-    assert html.startswith(HEAD_OPEN), html[:80]
+def head_after_charset(html: str, after: str | None = None) -> str:
+    """what HTMLDocument put into <head> after its charset meta -- when the document had a <head> of its own:
+    after the first occurrence of `after` (the placeholder that head holds)"""
+    m = HEAD_OPEN.match(html)
+    assert m, html[:80]
     # the real end of <head>: the line that is followed by <body at the same depth (hostile
     # content nested in head or body is indented deeper, so it cannot produce this text)
     j = html.rindex("\n  </head>\n  <body")
-    body = html[len(HEAD_OPEN):j]
+    body = html[m.end():j]
+    if after is not None:
+        body = body[body.index(after) + len(after):]
     return body[1:] if body.startswith("\n") else body
 
 
@@ -542,11 +797,20 @@ class Batch:
 
     def run(self) -> None:
         # one invocation in the quick tier; the thorough tier is cut into a few slices to bound the
-        # size of the text handed to the driver processes
-        self.out = []
+        # size of the text handed to the driver processes.  Equal inputs (the same dependency serialised in
+        # several ways has ONE expected element) are evaluated once.
+        index, uniq, where = {}, [], []
+        for x in self.sx:
+            k = repr(x)
+            if k not in index:
+                index[k] = len(uniq)
+                uniq.append(x)
+            where.append(index[k])
+        res = []
         step = 80000
-        for a in range(0, len(self.sx), step):
-            self.out += run_model(self.sx[a:a + step], nproc=8, driver="c13")
+        for a in range(0, len(uniq), step):
+            res += run_model(uniq[a:a + step], nproc=8, driver="c13")
+        self.out = [res[i] for i in where]
 
     def get(self, name: str) -> list:
         a, n = self.groups[name]
@@ -589,29 +853,102 @@ def decode_extract(m):
     return safe_call(lambda: (unS(m[0]), [dep_canon(dep_from_payload(unS(p))) for p in m[1]]))
 
 
+W_EXTRA = "render() changed the dependency objects the caller passed in (a read-only call modified its argument)"
+
+
+def ren_variant(rng, case: dict) -> dict:
+    """the same document through other arguments: positional construction, render() with its defaults, json
+    render mode around the whole, a second render() with other arguments on the same document"""
+    if rng.random() < 0.25:
+        case["args"] = "pos"
+    if rng.random() < 0.2:
+        case["defaults"] = True
+        case["lib_prefix"], case["include_version"] = "lib", True
+    if rng.random() < 0.3:
+        case["mode"] = "json"
+    if rng.random() < 0.3:
+        case["calls"] = [[rng.choice(LIB_PREFIXES), rng.random() < 0.5] for _ in range(rng.choice([1, 1, 2]))]
+    return case
+
+
+def render_calls(case) -> list:
+    """the render() calls made on the case's ONE document: (lib_prefix, include_version) each"""
+    return [[case["lib_prefix"], case["include_version"]]] + [list(c) for c in case.get("calls", [])]
+
+
 def render_run(case):
+    """(safe_call result: one (html, dependencies) per render() call, serialised elements of the document)"""
     doc, sers = make_doc(case)
     extra = [build_dep(d) for d in case["extra"]]
 
     def f():
-        r = HTMLTextDocument(doc, deps=list(extra) if extra else None, deps_replace_pattern=case["ph"]) \
-            .render(lib_prefix=case["lib_prefix"], include_version=case["include_version"])
-        return (r["html"], [dep_canon(d) for d in r["dependencies"]])
+        before = copy.deepcopy([dep_canon(d) for d in extra])
+        outs = []
+        with Mode(case.get("mode")):
+            if case.get("args") == "pos":
+                td = HTMLTextDocument(doc, list(extra) if extra else None, case["ph"])
+            else:
+                td = HTMLTextDocument(doc, deps=list(extra) if extra else None, deps_replace_pattern=case["ph"])
+            for lp, iv in render_calls(case):
+                if case.get("defaults") and lp == "lib" and iv is True:
+                    r = td.render()
+                else:
+                    r = td.render(lib_prefix=lp, include_version=iv)
+                outs.append((r["html"], copy.deepcopy([dep_canon(d) for d in r["dependencies"]])))
+                # the caller does what it likes with a result: the document's next render() is judged like
+                # its first
+                for d in r["dependencies"]:
+                    d.name = d.name + "~changed"
+                    d.script.append({"src": "changed.js"})
+                    d.meta.clear()
+                    d.head = None
+                r["dependencies"].clear()
+                r["html"] = ""
+        if before != [dep_canon(d) for d in extra]:
+            _NOTES.append((W_EXTRA, case, {"impl_output": [dep_canon(d) for d in extra], "expected": before}))
+        return outs
     return safe_call(f), sers
 
 
 def render_expect(case, sers):
-    """(remaining text, dependency list, markup or None)"""
+    """(remaining text, dependency list, one markup per render() call or None)"""
     origin = {}
     for (i, _ind), s in zip(case["items"], sers):
         origin.setdefault(s, i)
     deps = [build_dep(d) for d in case["extra"]] + \
            [build_dep(case["pool"][origin[s]]) for s in spec_first_occurrences(sers)]
     names = [d.name for d in deps]
-    markup = None
+    markups = None
     if len(set(names)) == len(names):
-        markup = listing_and_tags_markup(deps, case["lib_prefix"], case["include_version"])
-    return "".join(case["texts"]), deps, markup
+        memo = {}
+        for lp, iv in render_calls(case):
+            if (lp, iv) not in memo:
+                memo[(lp, iv)] = listing_and_tags_markup(deps, lp, iv)
+        markups = [memo[(lp, iv)] for lp, iv in render_calls(case)]
+    return "".join(case["texts"]), deps, markups
+
+
+def judge_render(ph: str, res, remaining: str, want_deps: list, markup):
+    """one render() result (html, dependencies) against the statement: exactly the first occurrence of the
+    placeholder in the text left after extraction is replaced, by the markup HTMLDocument would put in <head>;
+    everything else is untouched.  -> 'strict' | 'lenient' | 'absent' | 'unjudged markup' | None (wrong)"""
+    html, got_deps = res
+    if got_deps != want_deps or not isinstance(html, str):
+        return None
+    i = remaining.find(ph)
+    if i < 0:
+        return "absent" if html == remaining else None
+    before, after = remaining[:i], remaining[i + len(ph):]
+    if not (html.startswith(before) and html.endswith(after) and len(html) >= len(before) + len(after)):
+        return None
+    if markup is None:
+        return "unjudged markup"
+    mid = html[len(before):len(html) - len(after)]
+    if norm_strict(mid) == norm_strict(markup):
+        return "strict"
+    if norm_lenient(mid) == norm_lenient(markup):
+        return "lenient"
+    return None
 
 
 def code_markup(deps, case):
@@ -642,7 +979,21 @@ def run(ctx: Ctx) -> None:
         "overlapping and empty; pipelines: random tag trees holding dependencies rendered in json mode and "
         "directly; backslash-bearing strings (doubled backslash, backslash-n as two characters, group references, "
         "backslash-d, a Windows path, a trailing backslash) in names, attribute / meta values and head markup of "
-        "every scenario, hand-written for render and pipeline. Non-trivial = contains at least one of quote, backslash, '<', control or non-ASCII character "
+        "every scenario, hand-written for render and pipeline. "
+        "WIDENED (see the list of entry points at the top of harness/props/C13.py): heads holding other dependencies "
+        "(directly, inside tags, up to 17 levels, made by head_content()); every scenario in the default and in the json "
+        "render mode (around the call / also while building); indent positional and up to 300; copies of dependencies; "
+        "four ways of taking the element's markup; serialising twice with the caller changing the first result; sizes "
+        "7..300 around the powers of two for script / stylesheet / meta items, attributes, head children, nested "
+        "dependencies, serialised copies, dependencies per document / tree, placeholder occurrences, render() calls on one "
+        "document, depth up to 70 for head tags / lists / tuples / TagLists and the tree around a dependency, strings of "
+        "300 / 5000 / 70 001 / 300 017 characters with the hostile part at the 256 / 4 KiB / 64 KiB seams and in the tail; "
+        "placeholders with regex metacharacters, each with a decoy a regex reading would match earlier; extraction by the "
+        "static helper and by the public route; render() with defaults / positional construction / several calls with "
+        "different arguments and the caller changing the returned objects in between; sequences of documents in one "
+        "process; pipelines through str / repr / _repr_html_ / format / f-string / %s, over a tag, a TagList, an <html> tag "
+        "with its own head, a lone <body>, a with-block, copies, a JSX component, tagifiable self-rendering objects, the "
+        "same dependency at two places, wide / deep trees. Non-trivial = contains at least one of quote, backslash, '<', control or non-ASCII character "
         "(strings) / at least one serialised copy (documents); distinct = distinct canonical inputs.")
     ctx.assumptions = [
         "the extracted OCaml model behaves as the Gallina model (ExtrOcamlBasic only)",
@@ -676,11 +1027,27 @@ def run(ctx: Ctx) -> None:
     lk = safe_call(lambda: list(json.loads(probe[len(OPEN_TAG):-len(CLOSE_TAG)]).keys()))
     live_keys = lk[1] if probe.startswith(OPEN_TAG) and lk[0] == "ok" else []
 
+    # An implementation that has become drastically slower (state piling up from call to call, a quadratic
+    # path) must not keep the check busy for hours: past this much CPU time the remaining cases of a step are
+    # dropped and the step counts as not done (the unchanged tree needs about a tenth of it).
+    cpu0, cpu_limit, cut = time.process_time(), (240 if ctx.quick else 7200), []
+
+    def over_time(stage, done, total) -> bool:
+        if time.process_time() - cpu0 <= cpu_limit:
+            return False
+        if stage not in cut:
+            cut.append(stage)
+            ctx.obligation(f"{stage}: all {total} cases evaluated (stopped after {done}: more than {cpu_limit} s of CPU "
+                           "time used, the implementation is far slower than the unchanged one)", False)
+        return True
+
     def precompute(stage, cases, f):
         """f(case) runs implementation code to prepare a case; a case on which it raises is reported
         (valid input raised ...) and left out of what follows"""
         kept, vals = [], []
-        for c in cases:
+        for k, c in enumerate(cases):
+            if over_time(stage, k, len(cases)):
+                break
             r = safe_call(f, c)
             if r[0] == "ok":
                 kept.append(c)
@@ -706,6 +1073,8 @@ def run(ctx: Ctx) -> None:
     for n in range(0, ctx.budget(3, 5) + 1):
         strs += ["".join(t) for t in itertools.product(alpha, repeat=n)]
     strs += ["퟿", "\U00010000\U0010ffff", "\x7f\x80\xa0"]
+    # long strings: what needs escaping sits across the 256 / 4 KiB / 64 KiB seams and in the tail
+    strs += [long_string(rng, n, hot) for n in STRLENS for hot in ('"', "\\", "</script>", "\x1f\U0001F600\u2028")]
     batch.add("enc", [[2, S(s)] for s in strs])
 
     # ---- B2: json.loads(literal), incl. neutralised literals and malformed ones -------------------
@@ -754,6 +1123,36 @@ def run(ctx: Ctx) -> None:
         ser_cases.append({"kind": "serialise", "dep": d, "indent": rng.choice(INDENTS)})
     for _ in range(ctx.budget(800, 25000)):
         ser_cases.append({"kind": "serialise", "dep": rand_dep(rng), "indent": rng.choice(INDENTS)})
+    # every way of serialising (render mode, positional indent, copies, markup routes, twice) over the above
+    for c in ser_cases[n_corpus:]:
+        ser_variant(rng, c)
+    # heads that hold other dependencies, in both render modes, in every wrap
+    for wrap in HEAD_WRAPS:
+        for inner_head in (None, ["html", "<title>i</title>"], ["kids", "taglist", [("D", tiny_dep(INNER + "2", script=[{"src": "j.js"}]))]]):
+            inner = tiny_dep(INNER + "1", source={"href": "https://cdn/x"}, script=[{"src": "i.js"}], head=inner_head)
+            for kids in ([("D", inner)], [TITLE, ("D", inner)], [("W", "link", False, [("D", inner)])],
+                         [("H", " "), ("W", "div", True, [("T", "x"), ("D", inner), TITLE]), ("D", inner)]):
+                for mode in (None, "json", "json-build"):
+                    ser_cases.append({"kind": "serialise", "dep": tiny_dep("outer", head=["kids", wrap, kids]),
+                                      "indent": rng.choice(INDENTS), "mode": mode})
+            for mode in (None, "json"):
+                ser_cases.append({"kind": "serialise", "dep": {"head_content": [("G", "meta", False, [("name", ("S", "k"))], []), ("D", inner)]},
+                                  "indent": rng.choice(INDENTS), "mode": mode})
+    # sizes and depths (the content that matters in the last member / deepest level / tail), each in the
+    # default and in the json render mode; large indents
+    n_sized = 0
+    for what, d in sized_deps(rng, SIZES, DEPTHS, DEP_DEPTHS, STRLENS if ctx.quick else STRLENS + [65536, 65537]):
+        for mode in (None, "json"):
+            n_sized += 1
+            c = {"kind": "serialise", "dep": d, "indent": rng.choice(INDENTS + BIG_INDENTS[:3]), "mode": mode, "size": what}
+            if rng.random() < 0.3:
+                ser_variant(rng, c, mode)
+            ser_cases.append(c)
+    for ind in BIG_INDENTS + [-1]:
+        ser_cases.append(ser_variant(rng, {"kind": "serialise", "dep": rand_dep(rng), "indent": ind}))
+        ser_cases.append({"kind": "serialise", "indent": ind,
+                          "dep": tiny_dep("a", script=[{"src": "x</script >"}], meta=[{"name": "n", "content": "c"}], head=["html", " <!--x--> "])})
+    ctx.extra["sized_serialise_cases"] = n_sized
     if not ctx.quick:
         for n in range(0, 5):
             for t in itertools.product('</\\"sS>', repeat=n):
@@ -782,6 +1181,23 @@ def run(ctx: Ctx) -> None:
         items = [(rng.randrange(len(pool)), rng.choice(INDENTS)) for _ in range(n)]
         doc_cases.append({"kind": "doc", "pool": pool, "items": items,
                           "texts": [rand_text_noopen() for _ in range(n + 1)]})
+    # sizes: many serialised copies -- all distinct; one dependency over and over and a new one LAST; a repeat
+    # of the first one LAST --, long text between the copies, a long payload
+    for n in (SIZES if not ctx.quick else sorted(rng.sample(SIZES[:-1], 7)) + [300]):
+        hot = rng.choice(HOT).replace(OPEN_TAG, "<script>")
+        pool = [tiny_dep(f"d{i}", script=[{"src": f"s{i}.js"}]) for i in range(n - 1)] + \
+               [tiny_dep("last", meta=[{"name": "n", "content": "x" + hot}], head=["html", hot + " "])]
+        ind = rng.choice(INDENTS)
+        for what, items in (("distinct", [(i, ind) for i in range(n)]),
+                            ("new one last", [(0, ind)] * (n - 1) + [(n - 1, ind)]),
+                            ("repeat last", [(i, ind) for i in range(n - 1)] + [(0, ind)]),
+                            ("other serialisation of the first one last", [(i % 3, None) for i in range(n - 1)] + [(0, 2)])):
+            doc_cases.append({"kind": "doc", "pool": pool, "items": items, "size": f"{n} copies, {what}",
+                              "texts": [rng.choice(["", "\n", "<p>t</p>", hot]) for _ in range(n)] + ["tail" + hot]})
+    for n in STRLENS[1:]:
+        pool = [simple_dep("head", long_string(rng, 5000)), rand_dep(rng)]
+        doc_cases.append({"kind": "doc", "pool": pool, "items": [(0, None), (1, 2), (0, None), (0, 4)], "size": f"texts of {n} characters",
+                          "texts": [long_string(rng, n, "<script"), "", long_string(rng, n, "</script>"), "\n", long_string(rng, n, OPEN_TAG[:-1])]})
     doc_cases, doc_exp = precompute("serialize_to_script_json() while assembling the document", doc_cases,
                                     doc_expected)                 # (document, (remaining, deps))
     batch.add("doc", [[4, S(d)] for d, _ in doc_exp])
@@ -794,6 +1210,12 @@ def run(ctx: Ctx) -> None:
 
     # ---- B/C 3: render(): first occurrence of the placeholder only --------------------------------
     PHS = ['<meta data-foo="">', "##", "{{deps}}", "", "</head>", "<!-- deps -->", "a", "\n", "#"]
+    # placeholders that mean something else to a regular-expression engine (the placeholder is literal text),
+    # each with a text that such a reading would match and that comes BEFORE the first real occurrence
+    PH_META = [("a.b", "aXb"), ("<!--deps.here-->", "<!--deps-here-->"), ("<!-- deps? -->", "<!-- dep -->"),
+               ("<!-- css|js -->", "<!-- js -->"), ("[[deps]]", "d"), ("x*", "xx"), ("(deps)", "deps"), ("^deps", "deps"),
+               ("deps$", "deps"), ("\\d", "5"), ("d{2}", "dd"), ("(?i)deps", "DEPS"), ("<!-- (deps -->", "t"), ("$deps$", "t"),
+               ("<?deps*?>", "<deps>"), ("<!-- \\deps -->", "t"), ("[", "t"), ("dep+s", "depps"), ("\\1", "t"), (".", "t")]
     ren_cases = []
     for _ in range(ctx.budget(450, 10000)):
         ph = rng.choice(PHS) if rng.random() < 0.85 else (hostile(rng, 1).replace(OPEN_TAG, "") or "#")
@@ -814,9 +1236,49 @@ def run(ctx: Ctx) -> None:
             texts[j] = texts[j][:cut] + ph + texts[j][cut:]
         texts = [t.replace(OPEN_TAG, "<script>") for t in texts]
         extra = [rand_dep(rng, renderable=True, name=f"extra{rng.randrange(3)}")] if rng.random() < 0.2 else []
-        ren_cases.append({"kind": "render", "ph": ph, "pool": pool, "items": items, "texts": texts, "extra": extra,
-                          "lib_prefix": rng.choice(["lib", "lib", None, "x/y", ""]),
-                          "include_version": rng.random() < 0.7})
+        case = {"kind": "render", "ph": ph, "pool": pool, "items": items, "texts": texts, "extra": extra,
+                "lib_prefix": rng.choice(LIB_PREFIXES), "include_version": rng.random() < 0.7}
+        if len(ren_cases) > 60:
+            ren_variant(rng, case)
+        ren_cases.append(case)
+    for ph, decoy in PH_META:
+        for k in (1, 3):
+            pool = [rand_dep(rng, renderable=True, name=f"n{i}") for i in range(2)]
+            ren_cases.append(ren_variant(rng, {
+                "kind": "render", "ph": ph, "pool": pool, "items": [(0, None), (1, 2), (0, None)],
+                "texts": ["<html><head>" + decoy, "<title>" + decoy + "</title>" + ph, "</head><body>" + decoy, (ph + "<p>more</p>") * (k - 1) + "</body></html>"],
+                "extra": [], "lib_prefix": rng.choice(LIB_PREFIXES), "include_version": k == 1}))
+    # sizes: many dependencies (the one that needs care last), many occurrences of the placeholder, the first
+    # occurrence far into the text, a long placeholder, many render() calls on one document
+    for n in (SIZES if not ctx.quick else sorted(rng.sample(SIZES[:-1], 4)) + [300]):
+        hot = rng.choice(HOT).replace(OPEN_TAG, "<script>")
+        pool = [tiny_dep(f"d{i}", source={"subdir": "d3"}, script=[{"src": f"s{i}.js"}]) for i in range(n - 1)] + \
+               [tiny_dep("last", source={"href": "u" + hot}, meta=[{"name": "n", "content": "x" + hot}],
+                         stylesheet=[{"href": "l.css"}], head=["html", hot + " "])]
+        ren_cases.append(ren_variant(rng, {
+            "kind": "render", "ph": "{{deps}}", "pool": pool, "items": [(i, None) for i in range(n)], "size": f"{n} dependencies",
+            "texts": ["<head>{{deps}}</head>"] + [""] * (n - 1) + ["{{deps}}"], "extra": [],
+            "lib_prefix": rng.choice(LIB_PREFIXES), "include_version": rng.random() < 0.5}))
+        ph = rng.choice(["##", "{{deps}}", "aa", "<!-- deps -->"])
+        ren_cases.append(ren_variant(rng, {
+            "kind": "render", "ph": ph, "pool": pool[-2:], "items": [(0, None), (1, None)], "size": f"{n} placeholder occurrences",
+            "texts": ["<p>", ph * (n // 2) + "x", ("y" + ph) * (n - n // 2)], "extra": [], "lib_prefix": "lib", "include_version": True}))
+    for n in STRLENS:
+        pool = [rand_dep(rng, renderable=True, name=f"n{i}") for i in range(2)]
+        ren_cases.append(ren_variant(rng, {
+            "kind": "render", "ph": "{{deps}}", "pool": pool, "items": [(0, None), (1, 2)], "size": f"first placeholder after {n} characters",
+            "texts": [long_string(rng, n, "{{deps}"), long_string(rng, n, "{deps}}") + "{{deps}}", "{{deps}}" + long_string(rng, 300, "{{deps}}")],
+            "extra": [], "lib_prefix": "lib", "include_version": True}))
+        ph = ("<!-- " + " ".join(str(i * 7919) for i in range(n // 4)))[:n - 5] + "(?) -->"
+        ren_cases.append(ren_variant(rng, {
+            "kind": "render", "ph": ph, "pool": pool, "items": [(0, None), (1, 2)], "size": f"placeholder of {n} characters",
+            "texts": [ph[:-1], ph[1:] + ph, "x" + ph], "extra": [], "lib_prefix": "lib", "include_version": True}))
+    for n in sorted(rng.sample(SIZES[:12], ctx.budget(2, 6))) + [300]:
+        pool = [rand_dep(rng, renderable=True, name=f"n{i}") for i in range(2)] if n < 300 else [tiny_dep("t", script=[{"src": "t.js"}])]
+        ren_cases.append({"kind": "render", "ph": "##", "pool": pool, "items": [(i, None) for i in range(len(pool))],
+                          "texts": ["<head>##</head>"] + ["#"] * len(pool), "extra": [], "size": f"{n} render() calls on one document",
+                          "lib_prefix": "lib", "include_version": True,
+                          "calls": [[LIB_PREFIXES[i % len(LIB_PREFIXES)], i % 3 != 0] for i in range(1, n)]})
     # strings a regex-based replacement would read as escapes, in every place that reaches the markup
     for b in BACKSLASHES:
         for fld in ("name", "attr", "meta", "head", "headscript", "src", "source"):
@@ -877,10 +1339,20 @@ def run(ctx: Ctx) -> None:
 
     diff(ctx, "serialize_to_script_json().get_html_string() vs OPENER ++ neutralise(json.dumps) ++ CLOSER",
          ser_cases, batch.get("ser"),
-         impl=lambda c: safe_call(lambda: build_dep(c["dep"]).serialize_to_script_json(indent=c["indent"]).get_html_string()),
+         impl=lambda c: safe_call(ser_run, c),
          decode=lambda m: ("ok", unS(m)), oracle=oracle_ser,
          nontrivial=lambda c: nontriv_s("".join(all_strings(c["dep"]))),
-         kind=lambda c: "dependency to serialise")
+         kind=lambda c: "dependency to serialise" + (" in json render mode" if c.get("mode") else "")
+         + (" (size / depth case)" if c.get("size") else ""))
+    # one string beyond 256 KiB (not a multiple of 64 KiB); too long for the extracted model's stack, so the
+    # oracle alone judges it
+    for f in ("head", "meta"):
+        c = {"kind": "serialise", "dep": simple_dep(f, long_string(rng, 300017)), "indent": None, "mode": rng.choice([None, "json"])}
+        ctx.count(c, True, "dependency to serialise (size / depth case)")
+        oracle_ser(c, safe_call(ser_run, c))
+    for what, case, detail in _NOTES:
+        ctx.violation(what, case, detail)
+    _NOTES.clear()
     ctx.extra["corpus_cases"] = n_corpus
     ctx.extra["element_differences_due_to_html_parser_leniency_only"] = len(fails.pop("html.parser-only", []))
     for what, lst in fails.items():
@@ -895,16 +1367,31 @@ def run(ctx: Ctx) -> None:
     bad_docs = []
     exp_of = {id(c): e for c, e in zip(doc_cases, doc_exp)}
 
+    n_public = [0]
+
     def oracle_doc(case, out):
         if out[0] == "exc":
             record_exc(ctx, "_static_extract_serialized_html_deps", case, out)
         elif out != ("ok", exp_of[id(case)][1]):
             bad_docs.append((case, out))
+        elif (case.get("size") or len(canon(case)) % 3 == 0) and \
+                not any("\x00" in t for d in case["pool"] for t in all_strings(d.get("source"))):
+            # (render() resolves a source directory with os.path.realpath, which rejects NUL: file system paths
+            # are C12's subject, such documents go through the static helper only)
+            # the public route: HTMLTextDocument(text, deps_replace_pattern=<a text that does not occur>).render()
+            n_public[0] += 1
+            out2 = run_extract(exp_of[id(case)][0], public=True)
+            if out2[0] == "exc":
+                record_exc(ctx, "HTMLTextDocument(text, deps_replace_pattern=absent).render()", case, out2)
+            elif out2 != ("ok", exp_of[id(case)][1]):
+                bad_docs.append((case, out2))
 
     diff(ctx, "_static_extract_serialized_html_deps vs extract", doc_cases, batch.get("doc"),
          impl=lambda c: run_extract(exp_of[id(c)][0]), decode=decode_extract, oracle=oracle_doc,
          nontrivial=lambda c: len(c["items"]) > 0,
-         kind=lambda c: f"document with {min(len(c['items']), 4)}{'+' if len(c['items']) > 4 else ''} serialised copies")
+         kind=lambda c: f"document with {min(len(c['items']), 4)}{'+' if len(c['items']) > 4 else ''} serialised copies"
+         + (" (size case)" if c.get("size") else ""))
+    ctx.extra["documents_also_extracted_by_the_public_route"] = n_public[0]
     if bad_docs:
         bad_docs.sort(key=lambda x: len(canon(x[0])))
         case, out = bad_docs[0]
@@ -916,33 +1403,30 @@ def run(ctx: Ctx) -> None:
 
     # ---- B/C 3 -----------------------------------------------------------------------------------
     bad_ren, strict_eq, lenient_only = [], 0, 0
-    for case, (out, remaining, deps, markup, _mk) in zip(ren_cases, ren_pre):
-        ctx.count(case, case["ph"] in remaining, f"render, placeholder x{min(remaining.count(case['ph']) if case['ph'] else 1, 3)}")
+    for case, (out, remaining, deps, markups, _mk) in zip(ren_cases, ren_pre):
+        ctx.count(case, case["ph"] in remaining, f"render, placeholder x{min(remaining.count(case['ph']) if case['ph'] else 1, 3)}"
+                  + (" (size case)" if case.get("size") else ""))
         want_deps = [dep_canon(d) for d in deps]
         if out[0] == "exc":
             record_exc(ctx, "HTMLTextDocument(...).render()", case, out)
             continue
-        ok = out[0] == "ok" and out[1][1] == want_deps
-        if ok:
-            html = out[1][0]
-            i = remaining.find(case["ph"])
-            if i < 0:
-                ok = html == remaining
-            else:
-                before, after = remaining[:i], remaining[i + len(case["ph"]):]
-                ok = html.startswith(before) and html.endswith(after) and len(html) >= len(before) + len(after)
-                if ok and markup is not None:
-                    mid = html[len(before):len(html) - len(after)]
-                    if norm_strict(mid) == norm_strict(markup):
-                        strict_eq += 1
-                    elif norm_lenient(mid) == norm_lenient(markup):
-                        lenient_only += 1
-                    else:
-                        ok = False
-        if not ok:
-            bad_ren.append((case, out, {"remaining": remaining, "markup": markup, "deps": want_deps}))
+        calls = render_calls(case)
+        ok = len(out[1]) == len(calls)
+        for k, res in enumerate(out[1] if ok else []):
+            v = judge_render(case["ph"], res, remaining, want_deps, None if markups is None else markups[k])
+            if v is None:
+                ok = False
+                bad_ren.append((case, ("ok", list(res)), {"remaining": remaining, "markup": None if markups is None else markups[k],
+                                                          "deps": want_deps, "render_call_number": k + 1,
+                                                          "arguments_of_that_call": calls[k]}))
+                break
+            strict_eq += v == "strict"
+            lenient_only += v == "lenient"
+    for what, case, detail in _NOTES:
+        ctx.violation(what, case, detail)
+    _NOTES.clear()
     dis = [(c, p[0], unS(m)) for c, p, m in zip(ren_cases, ren_pre, batch.get("ren"))
-           if not (p[0][0] == "ok" and p[0][1][0] == unS(m))]
+           if not (p[0][0] == "ok" and p[0][1] and p[0][1][0][0] == unS(m))]
     ctx.corr_cases += len(ren_cases)
     ctx.obligation(f"correspondence HTMLTextDocument.render()['html'] vs replace_first ({len(ren_cases)} cases)", not dis)
     if dis:
@@ -958,6 +1442,39 @@ def run(ctx: Ctx) -> None:
     r = safe_call(lambda: HTMLTextDocument("<html></html>").render())
     ctx.extra["note_render_without_pattern"] = f"HTMLTextDocument(html).render() with deps_replace_pattern=None -> {r[0]} {r[1] if r[0] == 'err' else ''} (existing behaviour, outside the statement)"
 
+    # ---- C 3b: several documents, one after the other (state shared between objects of a class) --------
+    # each with the constructor's default deps=None or with a list, with or without serialised dependencies,
+    # the first text once more at the end; every one is judged as if it were alone
+    def small_doc(nd, extra, ph):
+        pool = [rand_dep(rng, renderable=True, name=f"{rng.choice(TAME)}{i}") for i in range(nd)]
+        return ren_variant(rng, {"kind": "render", "ph": ph, "pool": pool, "items": [(i, rng.choice([None, 2])) for i in range(nd)],
+                                 "texts": ["<head>" + ph + "</head>"] + [rand_text_noopen() for _ in range(nd)],
+                                 "extra": [rand_dep(rng, renderable=True, name=f"extra{i}") for i in range(extra)],
+                                 "lib_prefix": rng.choice(LIB_PREFIXES), "include_version": rng.random() < 0.6})
+    bad_seq = []
+    for k in range(ctx.budget(40, 600)):
+        ph = rng.choice(PIPE_PHS)
+        docs = [small_doc(rng.choice([1, 2]), 0, ph), small_doc(rng.choice([0, 0, 1]), 0, ph),
+                small_doc(rng.choice([0, 1]), 1, ph), small_doc(0, 0, ph)]
+        if k % 2:
+            docs.insert(rng.randrange(len(docs)), small_doc(1, 2, ph))
+        docs.append(copy.deepcopy(docs[0]))
+        case = {"kind": "sequence", "docs": docs}
+        if over_time("sequences of documents", k, ctx.budget(40, 600)):
+            break
+        ctx.count(case, True, f"sequence of {len(docs)} documents")
+        r = safe_call(sequence_check, case)
+        if r[0] == "exc":
+            record_exc(ctx, "a sequence of HTMLTextDocument objects", case, r)
+        elif r[1] is not None:
+            bad_seq.append((case, r[1]))
+    if bad_seq:
+        bad_seq.sort(key=lambda x: len(canon(x[0])))
+        ctx.violation(bad_seq[0][1][0], bad_seq[0][0], {**bad_seq[0][1][1], "failing_cases_in_this_run": len(bad_seq)})
+    for what, case, detail in _NOTES:
+        ctx.violation(what, case, detail)
+    _NOTES.clear()
+
     # ---- C 4: json-mode str() + HTMLTextDocument  ==  HTMLDocument ------------------------------
     bad_pipe = []
     n_strict = n_len = 0
@@ -972,15 +1489,63 @@ def run(ctx: Ctx) -> None:
         nd = rng.choice([0, 1, 2, 2, 3])
         names = [rng.choice(TAME + ["n1", "n2"]) if rng.random() < 0.5 else hostile(rng, 2) for _ in range(nd)]
         pool = [rand_dep(rng, renderable=True, name=names[i]) for i in range(nd)]
-        ph = rng.choice(['<meta data-foo="">', "<!-- deps -->", "{{deps}}"])
+        ph = rng.choice(PIPE_PHS)
         tree = trees.rand_tree(rng, rng.choice([1, 2, 3]), leaves="TTHM", names="bbiv")
-        pipe_cases.append({"kind": "pipeline", "pool": pool, "ph": ph, "tree": tree, "slots": [rng.random() for _ in range(nd + 3)],
+        pipe_cases.append({"kind": "pipeline", "pool": pool, "ph": ph, "tree": tree, "slots": [rng.random() for _ in range(2 * nd + 3)],
                            "ph_count": rng.choice([1, 1, 2]), "top": rng.choice(["tag", "list"]),
-                           "lib_prefix": rng.choice(["lib", None, "x/y"]), "include_version": rng.random() < 0.7})
-    for case in pipe_cases:
+                           "lib_prefix": rng.choice(LIB_PREFIXES), "include_version": rng.random() < 0.7})
+    # every route / kind of tree / argument style (the hand-written and the first random cases keep the
+    # defaults: str() of a tag or TagList)
+    for case in pipe_cases[len(BACKSLASHES) * 5 + 40:]:
+        pipe_variant(rng, case)
+    # trees with objects that are both tagifiable and self-rendering; dependencies made by head_content()
+    for _ in range(ctx.budget(40, 800)):
+        pool = [rand_dep(rng, renderable=True, name=f"n{i}") for i in range(rng.choice([1, 2]))] + \
+               [{"head_content": rand_head_kids(rng, rng.choice([0, 1]), True)}]
+        pipe_cases.append(pipe_variant(rng, {
+            "kind": "pipeline", "pool": pool, "ph": rng.choice(PIPE_PHS),
+            "tree": trees.rand_tree(rng, rng.choice([1, 2, 3]), leaves="TTHRM", names="bbiv", custom=True),
+            "slots": [rng.random() for _ in range(len(pool) * 2 + 3)], "ph_count": rng.choice([1, 1, 2]),
+            "top": "tag", "lib_prefix": rng.choice(LIB_PREFIXES), "include_version": rng.random() < 0.6}))
+    # sizes: many dependencies (the one that needs care last), dependencies under a deep / in a wide tree, the
+    # first placeholder beyond 70 000 characters
+    for n in (rng.sample(SIZES[:-1], ctx.budget(4, 12)) + [300]):
+        pool = [tiny_dep(f"d{i}", script=[{"src": f"s{i}.js"}]) for i in range(n - 1)] + \
+               [tiny_dep("last", source={"href": "u" + rng.choice(HOT)}, meta=[{"name": "n", "content": "x" + rng.choice(HOT)}],
+                         script=[{"src": "l.js"}], head=["html", rng.choice(HOT) + " "])]
+        pipe_cases.append(pipe_variant(rng, {
+            "kind": "pipeline", "pool": pool, "ph": rng.choice(PIPE_PHS), "size": f"{n} dependencies",
+            "tree": trees.rand_tree(rng, 2, leaves="TTH", names="bbi"), "slots": [rng.random() for _ in range(2 * n + 3)],
+            "ph_count": 1, "top": "tag", "lib_prefix": rng.choice(LIB_PREFIXES), "include_version": rng.random() < 0.6}))
+    for n in rng.sample(DEPTHS, ctx.budget(3, 8)) + [70]:
+        t = ("G", "span", False, [], [("T", "bottom")])
+        for i in range(n):
+            t = ("G", "div", True, [], [t] if i % 5 else [("T", f"level {i}"), t])
+        pool = [rand_dep(rng, renderable=True, name=f"n{i}") for i in range(3)]
+        pipe_cases.append(pipe_variant(rng, {
+            "kind": "pipeline", "pool": pool, "ph": rng.choice(PIPE_PHS), "size": f"tree {n} deep", "tree": t,
+            "slots": [0.0, 0.001, rng.random(), 0.0, rng.random(), rng.random()], "ph_count": 1, "top": "tag",
+            "lib_prefix": rng.choice(LIB_PREFIXES), "include_version": True}, tops=["tag", "list", "copy", "body", "html"]))
+    for n in rng.sample(SIZES, ctx.budget(3, 8)) + [300]:
+        t = ("G", "div", True, [], [("G", "p", True, [], [("T", f"child {i}")]) if i % 3 else ("T", f"text {i} ") for i in range(n)])
+        pool = [rand_dep(rng, renderable=True, name=f"n{i}") for i in range(2)]
+        pipe_cases.append(pipe_variant(rng, {
+            "kind": "pipeline", "pool": pool, "ph": rng.choice(PIPE_PHS), "size": f"tree {n} wide", "tree": t,
+            "slots": [0.9999, 0.99999, 0.99995, rng.random()], "ph_count": 2, "top": "tag",
+            "lib_prefix": rng.choice(LIB_PREFIXES), "include_version": True}))
+    for n in STRLENS[1:]:
+        pool = [rand_dep(rng, renderable=True, name=f"n{i}") for i in range(2)]
+        pipe_cases.append({"kind": "pipeline", "pool": pool, "ph": rng.choice(PIPE_PHS), "size": f"{n} characters before the placeholder",
+                           "tree": ("G", "div", True, [], [("T", "x")]), "lead": long_string(rng, n, "{{dep"),
+                           "slots": [rng.random() for _ in range(4)], "ph_count": 2, "top": "list",
+                           "lib_prefix": "lib", "include_version": True})
+    for k, case in enumerate(pipe_cases):
+        if over_time("json-mode pipeline", k, len(pipe_cases)):
+            break
         nd = len(case["pool"])
         r = pipeline_check(case)
-        ctx.count(case, nd > 0, f"pipeline with {nd} dependencies")
+        ctx.count(case, nd > 0, f"pipeline with {min(nd, 4)}{'+' if nd > 4 else ''} dependencies"
+                  + (f", {case['top']}" if case["top"] not in ("tag", "list") else ""))
         if isinstance(r, str):
             if r == "strict":
                 n_strict += 1
@@ -1006,12 +1571,35 @@ def run(ctx: Ctx) -> None:
     flush_exc(ctx)
 
 
-def render_once(case):
-    doc, _ = make_doc(case)
-    extra = [build_dep(d) for d in case["extra"]]
-    return safe_call(lambda: HTMLTextDocument(doc, deps=list(extra) if extra else None,
-                                              deps_replace_pattern=case["ph"])
-                     .render(lib_prefix=case["lib_prefix"], include_version=case["include_version"])["html"])
+W_SEQ = ("documents processed one after the other in one process: a document is not rendered as the statement says "
+         "(each is judged as if it were the only one)")
+
+
+def sequence_check(case):
+    """case = {kind:'sequence', docs:[render case, ...]}: None, or (what, detail)"""
+    for k, c in enumerate(case["docs"]):
+        r = render_check(c)
+        if r is not None:
+            return (W_SEQ, {"document_number": k + 1, "what": r[0], **r[1]})
+    return None
+
+
+def render_check(case):
+    """one render case judged on its own (replay): None, or (what, detail)"""
+    out, sers = render_run(case)
+    if out[0] == "exc":
+        return (f"valid input raised {out[1]} (HTMLTextDocument(...).render())", {"impl_output": list(out)})
+    remaining, deps, markups = render_expect(case, sers)
+    want_deps = [dep_canon(d) for d in deps]
+    calls = render_calls(case)
+    if len(out[1]) != len(calls):
+        return (W_RENDER, {"impl_output": out})
+    for k, res in enumerate(out[1]):
+        if judge_render(case["ph"], res, remaining, want_deps, None if markups is None else markups[k]) is None:
+            return (W_RENDER, {"impl_output": list(res), "expected": {"remaining": remaining, "deps": want_deps,
+                                                                      "markup": None if markups is None else markups[k]},
+                               "render_call_number": k + 1, "arguments_of_that_call": calls[k]})
+    return None
 
 
 def place(tree, objs, slots):
@@ -1029,42 +1617,141 @@ def place(tree, objs, slots):
         t.insert(int(s * 7919) % (len(t.children) + 1), o)
 
 
+ROUTES = {"str": str, "repr": repr, "_repr_html_": lambda x: x._repr_html_(), "format": lambda x: format(x),
+          "fstring": lambda x: f"{x}", "percent": lambda x: "%s" % (x,)}
+TOPS = ["tag", "list", "tag", "list", "html", "body", "with", "copy", "deepcopy", "jsx"]
+DOC_ATTRS = [None, None, {"lang": "en"}, {"lang": "fr", "class_": "a b"}, {"style": "margin:0"}, {"data_x": "1", "lang": "de"}]
+
+
+PIPE_PHS = ['<meta data-foo="">', "<!-- deps -->", "{{deps}}", "<!-- head (deps) -->", "[[deps]]", "$deps$",
+            "<?deps*?>", "^deps|x^", "<!-- \\deps+ -->"]
+LIB_PREFIXES = ["lib", "lib", None, "x/y", "", "a/b/c", "li b"]
+
+
+def pipe_variant(rng, case: dict, tops=TOPS) -> dict:
+    """another public way through the same pipeline: kind of tree, route to the markup, a second call on the
+    same tree, positional / default arguments, render mode of the post-processing step, html attributes of
+    the reference document, every dependency object at two places"""
+    case["top"] = rng.choice(tops)
+    if rng.random() < 0.4:
+        case["route"] = rng.choice(sorted(ROUTES))
+    if rng.random() < 0.2:
+        case["repeat"] = True
+    if rng.random() < 0.3:
+        case["post_args"] = "pos"
+    if rng.random() < 0.3:
+        case["post_mode"] = "json"
+    if rng.random() < 0.3:
+        case["doc_attrs"] = rng.choice(DOC_ATTRS)
+    if rng.random() < 0.15:
+        case["dup"] = True
+    if rng.random() < 0.2:
+        case["defaults"] = True
+        case["lib_prefix"], case["include_version"] = "lib", True
+    return case
+
+
+def pipeline_build(case):
+    """the tree of the case, from fresh objects: a random tag tree with the dependencies and the placeholder(s)
+    inserted at pseudo-random places, then -- by case['top'] -- as it is, in a TagList (the first dependency
+    object a second time), as the <body> of an <html> tag that has its own <head> (holding the first
+    placeholder), as a lone <body>, collected through a with-block (sys.displayhook route), copied, or next
+    to a JSX component that holds the first dependency"""
+    root = trees.build(tuplify(case["tree"]))
+    deps = [build_dep(d) for d in case["pool"]]
+    ph = HTML(case["ph"])
+    objs = deps + [ph] * case["ph_count"]
+    if case.get("dup"):
+        objs = objs + deps[::-1]            # every dependency object at a second place of the tree
+    place(root, objs, case["slots"])
+    top = case["top"]
+    tags = htmltools.tags
+    if top == "tag":
+        return root
+    if top == "list":
+        return TagList(case.get("lead", "lead "), root, deps[:1])
+    if top == "html":
+        return tags.html(tags.head(tags.title("t"), ph), tags.body(root, deps[:1]))
+    if top == "body":
+        return tags.body(ph, root, deps[:1])
+    if top == "with":
+        w = Tag("div", _add_ws=True)
+        old = sys.displayhook
+        sys.displayhook = lambda v: None
+        try:
+            with w:
+                sys.displayhook(root)
+                sys.displayhook("text")
+                for d in deps[:1]:
+                    sys.displayhook(d)
+        finally:
+            sys.displayhook = old
+        return w
+    if top == "copy":
+        return copy.copy(root)
+    if top == "deepcopy":
+        return copy.deepcopy(TagList("lead ", root, deps[:1]))
+    if top == "jsx" and jsx_tag_create is None:
+        return TagList(ph, root, deps[:1])
+    if top == "jsx":
+        comp = jsx_tag_create("Foo")
+        return TagList(ph, Tag("div", comp(*deps[:1], Tag("b", "c"), "text", n=1, label="l"), root, _add_ws=True))
+    raise ValueError(top)
+
+
 def pipeline_check(case):
     """'strict' / 'lenient' when both routes agree, else a dict describing the difference"""
-    def build_x():
-        root = trees.build(tuplify(case["tree"]))
-        deps = [build_dep(d) for d in case["pool"]]
-        objs = deps + [HTML(case["ph"])] * case["ph_count"]
-        place(root, objs, case["slots"])
-        return root if case["top"] == "tag" else TagList("lead ", root, deps[:1])
-
     kw = {"lib_prefix": case["lib_prefix"], "include_version": case["include_version"]}
+    route = ROUTES[case.get("route", "str")]
+    ph = case["ph"]
     try:
-        direct = HTMLDocument(build_x()).render(**kw)
-        plain = str(build_x())
-        with JsonMode():
-            s = str(build_x())
-        post = HTMLTextDocument(s, deps_replace_pattern=case["ph"]).render(**kw)
+        with time_limit():
+            # directly
+            direct = HTMLDocument(pipeline_build(case), **(case.get("doc_attrs") or {})).render(**kw)
+            # the markup alone (default mode), then with the serialised dependencies (json mode) ...
+            plain = route(pipeline_build(case))
+            x = pipeline_build(case)
+            with Mode(True):
+                s = route(x)
+                if case.get("repeat"):
+                    s = route(x)                  # a second call on the same tree is worth what the first is
+            # ... post-processed
+            with Mode(case.get("post_mode")):
+                if case.get("post_args") == "pos":
+                    td = HTMLTextDocument(s, None, ph)
+                else:
+                    td = HTMLTextDocument(s, deps_replace_pattern=ph)
+                post = td.render(**kw) if kw != {"lib_prefix": "lib", "include_version": True} or not case.get("defaults") \
+                    else td.render()
+    except ImplTimeout:
+        htmltools.html_dependency_render_mode = "invisible"
+        return {"what": "valid input: a call did not return within the time limit", "exc": "did-not-terminate"}
     except Exception as ex:  # noqa: BLE001
         htmltools.html_dependency_render_mode = "invisible"
         return {"what": f"valid input raised {type(ex).__name__}: {ex}", "exc": type(ex).__name__}
-    d_deps = [dep_canon(d) for d in direct["dependencies"]]
+    # Known finding F7 (C11): HTMLDocument also RETURNS dependencies that sit only inside another dependency's
+    # head (it neither lists nor hoists them); they are never serialised by the json-mode route, which walks
+    # the tree only.  Exactly those (they carry the INNER name prefix) are left out of the list comparison;
+    # the text -- listing and markup -- is compared in full.
+    d_deps = [dep_canon(d) for d in direct["dependencies"] if not d.name.startswith(INNER)]
     p_deps = [dep_canon(d) for d in post["dependencies"]]
     if d_deps != p_deps:
         return {"what": "dependency lists differ", "got": p_deps, "want": d_deps}
-    i = plain.find(case["ph"])
+    if not isinstance(plain, str) or not isinstance(post["html"], str):
+        return {"what": "markup is not a str", "got": type(post["html"]).__name__}
+    i = plain.find(ph)
     if i < 0:
         return {"what": "placeholder lost", "got": plain}
     # _render_tag_or_taglist joins the serialised elements with a line feed: those separators
     # are ordinary surrounding text and stay
-    sep = "\n" * max(0, len(d_deps) - 1)
-    before, after = plain[:i], plain[i + len(case["ph"]):] + sep
+    sep = "\n" * max(0, len(p_deps) - 1)
+    before, after = plain[:i], plain[i + len(ph):] + sep
     html = post["html"]
     if not (html.startswith(before) and html.endswith(after) and len(html) >= len(before) + len(after)):
         return {"what": "text around the first placeholder is not the plain rendering", "got": html,
                 "want": before + "<markup>" + after}
     mid = html[len(before):len(html) - len(after)]
-    want = head_after_charset(direct["html"])
+    want = head_after_charset(direct["html"], ph if case["top"] == "html" else None)
     if norm_strict(mid) == norm_strict(want):
         return "strict"
     if norm_lenient(mid) == norm_lenient(want):
@@ -1085,12 +1772,15 @@ def replay(ctx: Ctx, path: str) -> None:
     print(json.dumps({k: r[k] for k in r if k != "detail"}, indent=1)[:3000])
     kind = case.get("kind") if isinstance(case, dict) else None
     if kind == "serialise":
-        out = safe_call(lambda: build_dep(case["dep"]).serialize_to_script_json(indent=case["indent"]).get_html_string())
-        print("element:", out)
+        out = safe_call(ser_run, case)
+        print("element:", str(out)[:3000])
         res = oracle_element(case, out)
         ctx.count(case, True, "replayed dependency")
         if res is not None:
             ctx.violation(res[0], case, {"impl_output": out, "detail": res[1]})
+        for what, c, detail in _NOTES:
+            ctx.violation(what, c, detail)
+        _NOTES.clear()
     elif kind == "doc":
         case["items"] = [tuple(x) for x in case["items"]]
         doc, want = doc_expected(case)
@@ -1099,9 +1789,20 @@ def replay(ctx: Ctx, path: str) -> None:
         if out != ("ok", want):
             ctx.violation(W_EXTRACT, case, {"impl_output": out, "expected": want, "document": doc})
     elif kind == "render":
-        print("render() ->", render_once(case))
+        res = render_check(case)
+        print("render case ->", str(res)[:3000])
         ctx.count(case, True, "replayed render case")
-        run(ctx)
+        if res is not None:
+            ctx.violation(res[0], case, res[1])
+        for what, c, detail in _NOTES:
+            ctx.violation(what, c, detail)
+        _NOTES.clear()
+    elif kind == "sequence":
+        res = sequence_check(case)
+        print("sequence ->", str(res)[:3000])
+        ctx.count(case, True, "replayed sequence of documents")
+        if res is not None:
+            ctx.violation(res[0], case, res[1])
     elif kind == "pipeline":
         res = pipeline_check(case)
         ctx.count(case, True, "replayed pipeline")
